@@ -601,7 +601,8 @@ def _run_solo_env(g, ctx, script):
   def prog(k, a):
     stb = env.reset(k)
     sts = env.reset(k[v:v + 1])
-    d0 = outdiff(sl((stb.obs, stb.done)), (sts.obs, sts.done))
+    d0 = outdiff(sl((stb.obs, stb.done, stb.pipeline_state)),
+                 (sts.obs, sts.done, sts.pipeline_state))
 
     def body(st, ai):
       ns = env.step(st, ai)
@@ -707,7 +708,10 @@ def _run_domain_rand(g, ctx):
   def prog(k, a):
     stb = wenv.reset(k)
     sts = w_i.reset(k[v:v + 1])
-    d0 = outdiff(sl((stb.obs, stb.done)), (sts.obs, sts.done))
+    # the whole reset state, including what pipeline.init caches from the
+    # system (mass, inertia, ...), must be the member's own
+    d0 = outdiff(sl((stb.obs, stb.done, stb.pipeline_state)),
+                 (sts.obs, sts.done, sts.pipeline_state))
 
     def body(st, ai):
       ns = wenv.step(st, ai)
